@@ -477,6 +477,28 @@ func Select(site string, hasDefault bool, cases ...SelCase) int {
 	}
 	pick := 0
 	if len(rs) > 1 {
+		// Go picks uniformly among the ready cases, so a loop around a select cannot starve a ready case for ever.
+		// The default answer models that fairness deterministically: when the same thread meets the same select with
+		// the same ready cases again without having done anything else in between, the default moves on to the next
+		// ready case (source order must not matter: a writer loop that spins over closed channels until it picks its
+		// stop channel terminates in Go wherever the stop case is written)
+		var mask uint64
+		for _, i := range rs {
+			mask |= 1 << uint(i)
+		}
+		if self.selSite == site && self.selMask == mask && self.selAt == self.nops {
+			self.selRot++
+		} else {
+			self.selRot = 0
+		}
+		self.selSite, self.selMask = site, mask
+		if r := self.selRot % len(rs); r > 0 {
+			var tmp [16]int
+			n := copyInts(tmp[:], rs)
+			for i := 0; i < n; i++ {
+				rs[i] = tmp[(i+r)%n]
+			}
+		}
 		var cs [16]int8
 		costs := cs[:len(rs)]
 		for i := range costs {
@@ -488,8 +510,21 @@ func Select(site string, hasDefault bool, cases ...SelCase) int {
 	}
 	idx := rs[pick]
 	cases[idx].perform(self)
+	self.selAt = self.nops + 1 // the next select by this thread is "again" only if it is its very next operation
 	if o := cases[idx].objID(); o != obj {
 		Touch(o)
 	}
 	return idx
+}
+
+//go:norace
+func copyInts(dst, src []int) int {
+	n := 0
+	for i := range src {
+		if i < len(dst) {
+			dst[i] = src[i]
+			n++
+		}
+	}
+	return n
 }
